@@ -1614,10 +1614,20 @@ fn s_glyph_simple_contours(c: &mut Chooser<'_>, _t: bool, out: &mut Out) {
     simple_body(c, out, true)
 }
 
-fn composite_model(c: &mut Chooser<'_>) -> rt::CompositeModel {
-    let n = [2usize, 1, 3][c.dev(3)];
+/// `placement`: None = the general family (WE_HAVE_INSTRUCTIONS on the last component when there are
+/// instructions); Some((n, mask)) = exactly n components, instructions present by default, and the flag on
+/// exactly the components whose bit is set in `mask` (the reader takes the glyph as instructed when ANY component
+/// carries it, so every non-empty placement is a well-formed value).
+fn composite_model(c: &mut Chooser<'_>, placement: Option<(usize, u32)>) -> rt::CompositeModel {
+    let n = match placement {
+        Some((n, _)) => n,
+        None => [2usize, 1, 3][c.dev(3)],
+    };
     let bbox = [dv(c, -5, I16M) as i16, dv(c, -6, I16M) as i16, dv(c, 700, I16M) as i16, dv(c, 800, I16M) as i16];
-    let instr: Option<usize> = [None, Some(0), Some(2), Some(65535), Some(65536)][c.dev(5)];
+    let instr: Option<usize> = match placement {
+        Some(_) => [Some(2usize), Some(1), Some(0), Some(65535), Some(65536)][c.dev(5)],
+        None => [None, Some(0), Some(2), Some(65535), Some(65536)][c.dev(5)],
+    };
     let mut comps = Vec::new();
     for i in 0..n {
         // default: signed byte xy offsets, no transform
@@ -1638,7 +1648,11 @@ fn composite_model(c: &mut Chooser<'_>) -> rt::CompositeModel {
         if i + 1 < n {
             flags |= rt::MORE;
         }
-        if i + 1 == n && instr.is_some() {
+        let flagged = match placement {
+            Some((_, mask)) => mask >> i & 1 == 1,
+            None => i + 1 == n && instr.is_some(),
+        };
+        if flagged {
             flags |= rt::HAVE_INSTR;
         }
         comps.push(rt::Component { flags, glyph, arg1, arg2, scale });
@@ -1717,8 +1731,25 @@ fn composite_case(m: &rt::CompositeModel, parsed: bool) -> impl Fn() -> Value + 
 }
 
 fn s_glyph_composite(c: &mut Chooser<'_>, _t: bool, out: &mut Out) {
+    composite_body(c, out, false)
+}
+
+/// composites with 2 and 3 components and instructions: every non-empty placement pattern of
+/// WE_HAVE_INSTRUCTIONS over the components (first only, middle only, last only, first+last, ... all) is a free
+/// choice, as constructed value and parsed from the independent encoding
+fn s_glyph_composite_instr(c: &mut Chooser<'_>, _t: bool, out: &mut Out) {
+    composite_body(c, out, true)
+}
+
+fn composite_body(c: &mut Chooser<'_>, out: &mut Out, placements: bool) {
     let parsed = c.pick(2) == 1;
-    let m = composite_model(c);
+    let placement = if placements {
+        let n = 2 + c.pick(2);
+        Some((n, 1 + c.pick((1 << n) - 1) as u32))
+    } else {
+        None
+    };
+    let m = composite_model(c, placement);
     let fits = m.instructions.as_ref().map_or(true, |i| i.len() <= 65535);
     out.nontrivial = true;
     let case = composite_case(&m, parsed);
@@ -3365,6 +3396,7 @@ fn structures() -> Vec<Structure> {
         Structure { name: "cmap-owned", body: s_cmap_owned, bound: (2, 3), split: 4 },
         Structure { name: "glyph-simple", body: s_glyph_simple, bound: (2, 3), split: 4 },
         Structure { name: "glyph-simple-numberOfContours-boundary", body: s_glyph_simple_contours, bound: (1, 2), split: 2 },
+        Structure { name: "glyph-composite-instruction-flag-placement", body: s_glyph_composite_instr, bound: (2, 3), split: 5 },
         Structure { name: "glyph-composite", body: s_glyph_composite, bound: (2, 3), split: 4 },
         Structure { name: "glyf+loca", body: s_glyf_table, bound: (2, 3), split: 4 },
         Structure { name: "cff-operand-integer", body: s_cff_int, bound: (0, 0), split: 1 },
